@@ -223,4 +223,71 @@ theorem scanDoc_inv (limit : Option Nat) (sch : Schedule) (doc : Bytes) :
   intro x hx
   exact (this.2.2 x (by simpa [scanDoc] using hx)).1
 
+/-- bit number of the style of a directive byte -/
+def styleIdx (b : UInt8) : Nat :=
+  if b == star then 3 else if b == under then 2 else if b == tilde then 4 else 5
+
+/-- every open span has its style bit set and not scheduled for clearing -/
+def StackOK (lv : Level) : Prop :=
+  ∀ b ∈ lv.spanStack, isDirective b = true ∧ lv.mask.getLsbD (styleIdx b) = true ∧
+    lv.clearMask.getLsbD (styleIdx b) = false
+
+theorem styleIdx_inj {a b : UInt8} (ha : isDirective a = true) (hb : isDirective b = true)
+    (h : styleIdx a = styleIdx b) : a = b := by
+  rcases isDirective_cases ha with rfl | rfl | rfl | rfl <;>
+    rcases isDirective_cases hb with rfl | rfl | rfl | rfl <;>
+    first | rfl | (revert h; decide)
+
+/-- one `scanSpan` call on a decoder whose directive bits are clear (as `scan` leaves them at
+entry), whose open spans have their style bits, and whose stack has no duplicate: afterwards
+every span end bit comes with its style bit and the open spans still have theirs -/
+theorem scanSpan_endCons {lv : Level} (data : Bytes) (atEOF : Bool) (hc : Clean lv) (hs : StackOK lv)
+    (hn : lv.spanStack.Nodup) :
+    EndCons (scanSpan lv data atEOF).2.mask ∧ StackOK (scanSpan lv data atEOF).2 := by
+  obtain ⟨h1, h2⟩ := hc
+  rcases scanSpan_effect lv data atEOF with h | ⟨b, hb, hd, h⟩ | ⟨b, hd, _, h⟩ <;> rw [h]
+  · refine ⟨?_, hs⟩
+    simp_all [EndCons, allDir]
+  · -- close: `b` is the top of the stack
+    cases hst : lv.spanStack with
+    | nil => simp [hst] at hb
+    | cons top rest =>
+      simp only [hst, List.head?_cons, Option.some.injEq] at hb
+      subst hb
+      have htop := hs top (by simp [hst])
+      rw [hst] at hn
+      have hnotin : top ∉ rest := (List.nodup_cons.mp hn).1
+      constructor
+      · rcases isDirective_cases hd with rfl | rfl | rfl | rfl <;>
+          simp_all [closeSpan, bitsOf, star, under, tick, tilde, EndCons, allDir, styleIdx,
+            SpanStrong, SpanStrongEnd, SpanEmph, SpanEmphEnd, SpanStrike, SpanStrikeEnd, SpanPre, SpanPreEnd]
+      · intro c hcm
+        have hcm' : c ∈ rest := by simpa [closeSpan, hst] using hcm
+        have hc' := hs c (by simp [hst, hcm'])
+        have hne : styleIdx c ≠ styleIdx top := fun he =>
+          hnotin (styleIdx_inj hc'.1 hd he ▸ hcm')
+        refine ⟨hc'.1, ?_, ?_⟩
+        · rcases isDirective_cases hd with rfl | rfl | rfl | rfl <;>
+            simp_all [closeSpan, bitsOf, star, under, tick, tilde]
+        · rcases isDirective_cases hd with rfl | rfl | rfl | rfl <;>
+            rcases isDirective_cases hc'.1 with rfl | rfl | rfl | rfl <;>
+            simp_all [closeSpan, bitsOf, star, under, tick, tilde, styleIdx,
+              SpanStrong, SpanStrongEnd, SpanEmph, SpanEmphEnd, SpanStrike, SpanStrikeEnd, SpanPre, SpanPreEnd]
+  · constructor
+    · rcases isDirective_cases hd with rfl | rfl | rfl | rfl <;>
+        simp_all [openSpan, bitsOf, star, under, tick, tilde, EndCons, allDir,
+          SpanStrong, SpanStrongStart, SpanEmph, SpanEmphStart, SpanStrike, SpanStrikeStart, SpanPre, SpanPreStart]
+    · intro c hcm
+      simp only [openSpan, List.mem_cons] at hcm
+      rcases hcm with rfl | hcm
+      · refine ⟨hd, ?_, ?_⟩ <;>
+          rcases isDirective_cases hd with rfl | rfl | rfl | rfl <;>
+          simp_all [openSpan, bitsOf, star, under, tick, tilde, styleIdx,
+            SpanStrong, SpanStrongStart, SpanEmph, SpanEmphStart, SpanStrike, SpanStrikeStart, SpanPre, SpanPreStart]
+      · have hc' := hs c hcm
+        refine ⟨hc'.1, ?_, ?_⟩ <;>
+          rcases isDirective_cases hd with rfl | rfl | rfl | rfl <;>
+          rcases isDirective_cases hc'.1 with rfl | rfl | rfl | rfl <;>
+          simp_all [openSpan, bitsOf, star, under, tick, tilde, styleIdx,
+            SpanStrong, SpanStrongStart, SpanEmph, SpanEmphStart, SpanStrike, SpanStrikeStart, SpanPre, SpanPreStart]
 end XmppModel.Styling
